@@ -130,6 +130,25 @@ def check_unary(spec, stats):
     r, exc = merge_sigs(s)
     if r is not None and full_view(r) != full_view(s):
         stats.fail('C09/law/merge(s)-sources', case, 'merge(s).sources differs from s.sources for s=(%s)' % desc)
+    if any(p.default is not None for p in spec):
+        # the same laws with defaults that are false in a boolean context (and the signature of another function that
+        # spells the same parameters: what both inputs agree on is kept)
+        falsy = ('0', 'False', "''", '()', '0.0', 'None', 'frozenset()')
+        k = [0]
+
+        def nxt(p):
+            k[0] += 1
+            return p._replace(default=falsy[(k[0] + len(spec)) % len(falsy)])
+        fspec = tuple(nxt(p) if p.default is not None else p for p in spec)
+        sf, sg = realfn.sig_of(fspec, 'f0'), realfn.sig_of(fspec, 'g0')
+        fdesc = universe.spec_text(fspec)
+        stats.case(3)
+        stats.cls('unary/falsy-defaults')
+        for label, args in (('merge(s)', (sf,)), ('merge(s,s)', (sf, sf)), ('merge(s,t)-same-parameters', (sf, sg))):
+            r, exc = merge_sigs(*args)
+            if r is None or canon_params(r) != canon_params(sf):
+                stats.fail('C09/law/falsy-defaults/%s' % label, dict(case, spec_used=fdesc),
+                           '%s for s=(%s)%s gave %s' % (label, fdesc, ' and t the signature of another function with the same parameters' if 'same' in label else '', r if r is not None else exc))
     variants = [('args', 'kwargs', False), ('p', 'k', False)]
     named = [p.name for p in spec if p.kind in (PO, POK, KWO)]
     if named:
